@@ -140,6 +140,20 @@ class _Ev:
             if isinstance(k, ast.Attribute) and k.attr == '__name__':
                 ke = self.entry(k.value, bind)
                 return ('pair', _funcname(self.model, self.m, ke[1]), ve[1])
+            # a key computed from the bound constant key of the source
+            # table (k.replace('-', '_'), k.lower(), prefix + k ...)
+            cenv = {n: b[1].value for n, b in bind.items()
+                    if b[0] == 'item' and isinstance(b[1], ast.Constant)}
+            if cenv:
+                from . import constfold
+                try:
+                    kv = constfold.fold(k, {}, dict(cenv))
+                except constfold.NotConstant:
+                    kv = None
+                except Exception:
+                    kv = None
+                if isinstance(kv, (str, int, bytes)):
+                    return ('pair', kv, ve[1])
             raise NotATable('pair key not constant')
         if isinstance(e, ast.Subscript) and isinstance(e.value, ast.Name) \
                 and e.value.id in bind and isinstance(e.slice, ast.Constant):
@@ -296,6 +310,16 @@ class _Ev:
         if isinstance(e, ast.Call) and isinstance(e.func, ast.Attribute) \
                 and e.func.attr == 'copy' and not e.args:
             return self.ev(e.func.value, bind)
+        if isinstance(e, ast.Call) and isinstance(e.func, ast.Attribute) \
+                and e.func.attr in ('items', 'keys', 'values') and \
+                not e.args:
+            d = self.as_dict(self.ev(e.func.value, bind))
+            if e.func.attr == 'items':
+                return ('seq', list(d[1]))
+            if e.func.attr == 'keys':
+                return ('seq', [('item', ast.Constant(value=x[1]))
+                                for x in d[1]])
+            return ('seq', [('item', x[2]) for x in d[1]])
         raise NotATable(f'{ast.unparse(e)[:50]}')
 
 
